@@ -583,8 +583,9 @@ class DocumentSetPreparator:
         return expected_size is None or os.path.getsize(file_name) == expected_size
 
     def remove_stale_file_offset_table(self, document_file_path):
-        # The document file has just been extracted. An offset table that is still around belongs to the previous version of the file.
-        # It must not be reused even if it appears to be up-to-date: e.g. tar restores the (older) modification time of the archive.
+        # The document file is about to be extracted (again). An offset table that is still around belongs to the previous version of the
+        # file. It must not be reused even if it appears to be up-to-date afterwards: e.g. tar restores the (older) modification time of
+        # the archive. It is removed up-front so it is also gone if the extraction replaces the file but fails later on.
         with contextlib.suppress(FileNotFoundError):
             io.remove_file_offset_table(document_file_path)
 
@@ -625,8 +626,8 @@ class DocumentSetPreparator:
                 and self.is_locally_available(archive_path)
                 and self.has_expected_size(archive_path, document_set.compressed_size_in_bytes)
             ):
-                self.decompressor.decompress(archive_path, doc_path, document_set.uncompressed_size_in_bytes)
                 self.remove_stale_file_offset_table(doc_path)
+                self.decompressor.decompress(archive_path, doc_path, document_set.uncompressed_size_in_bytes)
             else:
                 if document_set.has_compressed_corpus():
                     target_path = archive_path
@@ -686,8 +687,8 @@ class DocumentSetPreparator:
 
             if document_set.has_compressed_corpus() and self.is_locally_available(archive_path):
                 if self.has_expected_size(archive_path, document_set.compressed_size_in_bytes):
-                    self.decompressor.decompress(archive_path, doc_path, document_set.uncompressed_size_in_bytes)
                     self.remove_stale_file_offset_table(doc_path)
+                    self.decompressor.decompress(archive_path, doc_path, document_set.uncompressed_size_in_bytes)
                 else:
                     # treat this is an error because if the file is present but the size does not match, something is
                     # really fishy. It is likely that the user is currently creating a new track and did not specify
